@@ -18,7 +18,7 @@ tvars == <<vars, l, ok>>
 ToSet(s) == {s[i] : i \in 1..Len(s)}
 
 Eff(e) ==
-  \/ e.e = "view" /\ PersistView
+  \/ e.e = "view" /\ PersistView(e.id)
   \/ e.e = "op" /\ PersistOp(e.id)
   \/ e.e \in {"other", "noop"} /\ PersistOther
   \/ e.e = "headadd" /\ HeadAdd(e.id)
@@ -46,7 +46,7 @@ CrashVerdict(c) ==
   ELSE IF c.lost > 0 THEN "FilesLost"
   ELSE "ok"
 
-TInit == /\ par = <<>> /\ objs = {} /\ views = 0 /\ heads = {} /\ startHeads = {} /\ written = {}
+TInit == /\ par = <<>> /\ viewOf = <<>> /\ objs = {} /\ views = {} /\ heads = {} /\ startHeads = {} /\ written = {}
          /\ wcPhase = "clean" /\ wcStaleOk = FALSE /\ l = 1 /\ ok = FALSE
 
 Reset ==
@@ -54,8 +54,11 @@ Reset ==
   /\ LET r == Rec[l] IN
        /\ par' = [o \in {r.ops[i][1] : i \in 1..Len(r.ops)} |->
                     ToSet((CHOOSE p \in ToSet(r.ops) : p[1] = o)[2])]
+       /\ viewOf' = [o \in {r.viewof[i][1] : i \in 1..Len(r.viewof)} |->
+                       (CHOOSE p \in ToSet(r.viewof) : p[1] = o)[2]]
+       /\ views' = ToSet(r.existing_views)
        /\ objs' = ToSet(r.existing) /\ heads' = ToSet(r.start) /\ startHeads' = ToSet(r.start)
-  /\ views' = 0 /\ written' = {} /\ wcPhase' = "clean" /\ wcStaleOk' = FALSE
+  /\ written' = {} /\ wcPhase' = "clean" /\ wcStaleOk' = FALSE
   /\ ok' = TRUE /\ l' = l + 1
 
 Effect ==
